@@ -37,14 +37,28 @@ VTR(e) ==
     ELSE IF e.ranks # TRSVDRanks(e.shape, e.mode, TRReq(e)) THEN "RanksNotRequestedClipped"
     ELSE "ok"
 
+\* partial Tucker over the modes e.modes (0-based, any order): one factor per listed mode, in that order; rank None keeps the
+\* size of THOSE modes; the core has the tensor's shape with the listed modes replaced by the factor ranks
+VPTucker(e) ==
+    LET K == Len(e.modes)
+        Rq(j) == IF e.kind = "none" THEN e.shape[e.modes[j] + 1] ELSE IF e.kind = "int" THEN e.req[1] ELSE e.req[j]
+        Pos(m) == CHOOSE j \in 1..K : e.modes[j] = m - 1 IN
+    IF e.out # "ok" THEN "ValidRequestRaised"
+    ELSE IF ~(/\ Len(e.fshapes) = K
+              /\ \A j \in 1..K : Len(e.fshapes[j]) = 2 /\ e.fshapes[j][1] = e.shape[e.modes[j] + 1] /\ e.fshapes[j][2] >= 1) THEN "FactorShapes"
+    ELSE IF \E j \in 1..K : ~(MinI(Rq(j), e.shape[e.modes[j] + 1]) <= e.fshapes[j][2] /\ e.fshapes[j][2] <= Rq(j)) THEN "RanksNotRequested"
+    ELSE IF e.core_shape # [m \in 1..Len(e.shape) |-> IF (m - 1) \in SeqToSet(e.modes) THEN e.fshapes[Pos(m)][2] ELSE e.shape[m]] THEN "CoreShape"
+    ELSE IF ~(IsFin(e.orth[1]) /\ e.orth[1] <= OrthTol) THEN "TuckerFactorsNotOrthonormal"
+    ELSE "ok"
+
 VTucker(e) ==
     IF e.out # "ok" THEN "ValidRequestRaised"
     ELSE IF ~(/\ Len(e.fshapes) = Len(e.shape)
               /\ \A m \in 1..Len(e.shape) : Len(e.fshapes[m]) = 2 /\ e.fshapes[m][1] = e.shape[m] /\ e.fshapes[m][2] >= 1
               /\ e.core_shape = [m \in 1..Len(e.shape) |-> e.fshapes[m][2]]) THEN "FactorShapes"
-    ELSE IF e.kind \in {"int", "list"} /\
+    ELSE IF e.kind \in {"int", "list", "none"} /\
             \E m \in 1..Len(e.shape) :
-                LET rq == IF e.kind = "int" THEN e.req[1] ELSE e.req[m] IN
+                LET rq == IF e.kind = "none" THEN e.shape[m] ELSE IF e.kind = "int" THEN e.req[1] ELSE e.req[m] IN
                 ~(MinI(rq, e.shape[m]) <= e.fshapes[m][2] /\ e.fshapes[m][2] <= rq) THEN "RanksNotRequested"
     ELSE IF ~(IsFin(e.orth[1]) /\ e.orth[1] <= OrthTol) THEN "TuckerFactorsNotOrthonormal"
     ELSE "ok"
@@ -68,6 +82,7 @@ Verdict(e) ==
     IF ~(Len(e.shape) \in 2..5 /\ \A k \in 1..Len(e.shape) : e.shape[k] \in 1..8) THEN "InDomain"
     ELSE CASE e.fam = "tt" -> VTT(e)
            [] e.fam = "tr" -> VTR(e)
+           [] e.fam = "ptucker" -> VPTucker(e)
            [] e.fam = "tucker" -> VTucker(e)
            [] e.fam \in {"validate_tt", "validate_tr", "validate_tucker", "validate_cp"} -> VValidate(e)
            [] OTHER -> "Malformed"
